@@ -10,7 +10,7 @@ import (
 // Input families
 
 var inputFamilies = []string{"iid1", "iid2", "iid3", "iid4", "iid16", "iid256", "zeroheavy", "runs", "periodic",
-	"copyback", "fib", "thue", "debruijn", "zeroprefix_runs", "tandem", "nested"}
+	"copyback", "fib", "thue", "debruijn", "zeroprefix_runs", "tandem", "nested", "powers"}
 
 func genInput(r *RNG, n int, fam string) []byte {
 	b := make([]byte, n)
@@ -169,6 +169,29 @@ func genInput(r *RNG, n int, fam string) []byte {
 			}
 		}
 		copy(b, w)
+	case "powers":
+		// unit = up to a dozen short words, each raised to a power, with stray
+		// letters; text = a few repetitions of the unit. Measured on the
+		// suffix sorter: this is the shape that exhausts the rank-sort budget
+		// inside a tandem-repeat group (partial tandem-repeat copy, the path
+		// of F18), about 1 sort in 100.
+		k := 3 + r.Intn(2)
+		var unit []byte
+		for j := 1 + r.Intn(12); j > 0; j-- {
+			w := make([]byte, 1+r.Intn(6))
+			for i := range w {
+				w[i] = base + byte(r.Intn(k))
+			}
+			for p := 1 + r.Intn(9); p > 0; p-- {
+				unit = append(unit, w...)
+			}
+			if r.Chance(0.33) {
+				unit = append(unit, base+byte(r.Intn(k)))
+			}
+		}
+		for i := range b {
+			b[i] = unit[i%len(unit)]
+		}
 	case "copyback256":
 		// unique strings (literals over the full alphabet) and exact repeats
 		i := 0
